@@ -98,11 +98,15 @@ PROPS = {
         tinv=[],
     ),
     "C14": dict(
-        family="eco", edge_q=["allow_q"], edge=["roles_q", "allow_q", "credits_q"],
-        mc=[("roles_q", 120), ("allow_q", 60), ("bridge_q", 200), ("credits_q", 120)], mc_t=[("roles_t", 600), ("allow_q", 60), ("bridge_t", 900), ("credits_t", 600)],
-        inv=["C14_Unique", "C14_References", "C14_Format"],
-        step=["C14_Consecutive"],
-        tinv=["T_C14_ParsersAgree"],
+        family="eco",
+        parts=[
+            dict(family="eco", edge_q=["allow_q"], edge=["roles_q", "allow_q", "credits_q"],
+                 mc=[("roles_q", 120), ("allow_q", 60), ("bridge_q", 200), ("credits_q", 120)],
+                 mc_t=[("roles_t", 600), ("allow_q", 60), ("bridge_t", 900), ("credits_t", 600)],
+                 inv=["C14_Unique", "C14_References", "C14_Format"], step=["C14_Consecutive"], tinv=["T_C14_ParsersAgree"]),
+            # "for all strings fed to the format validators/parsers": functional specification IdFormat.tla
+            dict(family="idfmt"),
+        ],
     ),
     "C18": dict(
         family="eco", edge_q=["zerofee_q", "params_e"], edge=["params_e", "zerofee_q"],
